@@ -1,6 +1,7 @@
 //! Correspondence harness (native engines). Runs the real sycamore code on generated cases and
 //! writes, per engine, the request lines for the Lean driver, the implementation's canonical
 //! observations and the verdicts of the implementation-side oracles.
+mod asyncx;
 mod isdyn;
 mod listmap;
 mod num;
@@ -44,7 +45,11 @@ fn main() {
     }
     // Panics are captured per case; keep stderr quiet.
     std::panic::set_hook(Box::new(|info| {
-        if util::IN_CATCH.with(|c| c.get()) == 0 {
+        // panics inside executor tasks are swallowed by tokio: remember them for the async engine
+        if asyncx::ACTIVE.with(|a| a.get()) {
+            asyncx::PANIC_LOG.with(|p| p.borrow_mut().push(info.to_string().replace('\n', " ")));
+        }
+        if util::IN_CATCH.with(|c| c.get()) == 0 && !asyncx::ACTIVE.with(|a| a.get()) {
             eprintln!("harness bug (panic outside a case): {info}");
         }
     }));
@@ -55,6 +60,7 @@ fn main() {
         "listmap" => listmap::run(&args),
         "reactive" => reactive::run(&args),
         "ssr" => ssr::run(&args),
+        "async" => asyncx::run(&args),
         e => {
             eprintln!("unknown engine {e}");
             std::process::exit(2)
